@@ -59,6 +59,20 @@ def scripts_from(transitions):
     return out
 
 
+def error_scripts():
+    """replies without data values that are not plain empty lists: tooBig / genErr / noSuchName with an empty varbind list (once, and
+    from some point on for every request), and lost replies - the walk ends (or ends with an error); it does not go on asking"""
+    v1 = [{"oid": [1, 3, 1], "kind": "val"}]
+    v2 = [{"oid": [1, 3, 2], "kind": "val"}]
+    out = []
+    for tail in ("toobig", "generr", "nosuchname", "toobig-forever", "generr-forever", "drop"):
+        out.append([tail])
+        out.append([v1, tail])
+        out.append([v1, v2, tail])
+        out.append([v1, tail, v2])
+    return out
+
+
 def random_script(rng):
     univ = list(NAMES)
     n = rng.randrange(1, 5)
@@ -103,6 +117,9 @@ def shape(script):
     seen_max = (1, 3)
     kinds = set()
     for r in script:
+        if isinstance(r, str):
+            kinds.add("error-reply:" + r)
+            continue
         for x in r:
             o = tuple(x["oid"])
             if x["kind"] != "val":
@@ -147,6 +164,12 @@ def run(tier):
     runs += run_sync(rec, std["v1"], [x for x in pick(6, 1) if x[0] == "getnext"])
     runs += asyncio.run(run_async(rec, std["v3-md5-des"], pick(8, 2)))
     runs += run_sync(rec, std["v3-noauth"], pick(12, 3))
+    # replies that carry an error-status and no varbinds, and lost replies
+    err_items = [(op, sc) for op in ("getbulk", "getnext") for sc in error_scripts()]
+    runs += asyncio.run(run_async(rec, std["v2c"], err_items, 0))
+    runs += run_sync(rec, std["v2c"], err_items, 1)
+    runs += asyncio.run(run_async(rec, std["v3-md5-des"], err_items[::3], 2))
+    runs += run_sync(rec, std["v1"], [x for x in err_items if x[0] == "getnext"][::2], 0)
     # several walks alive in one process (abandoned / nested / interleaved; one session or two): what a walk yields comes from the
     # replies to ITS requests only - never rows another walk left behind
     runs += c05.multi_runs(rec, thorough)
@@ -160,7 +183,7 @@ def run(tier):
         if "multi" in info:
             chk.case(("multi", info["kind"], info["cfg"], info["multi"], info["variant"], info["two"]))
             continue
-        chk.case((info["kind"], info["ver"], info["op"], json.dumps(info["script"])), nontrivial=any(x["kind"] == "val" for r in info["script"] for x in r))
+        chk.case((info["kind"], info["ver"], info["op"], json.dumps(info["script"])), nontrivial=any(x["kind"] == "val" for r in info["script"] if not isinstance(r, str) for x in r))
     ri = 0
     for idxf in v["fails"]:
         while runs[ri][1] <= idxf:
